@@ -93,7 +93,7 @@ func vc06Sentinel(id uint16) []byte {
 // round trips after the query was received are taken as confirmation that the
 // server dropped it (settled = true).  A missing sentinel response is a
 // time-out (err != nil), never a verdict.
-func vc06Round(tcp bool, addr net.Addr, wires [][]byte, sentinelID, sentinel2ID uint16, expect map[uint16]bool) (resps map[uint16]*dns.Msg, settled bool, err error) {
+func vc06Round(tcp bool, addr net.Addr, wires [][]byte, sentinelID, sentinel2ID uint16, expect map[uint16]bool, split int) (resps map[uint16]*dns.Msg, settled bool, err error) {
 	network := "udp"
 	if tcp {
 		network = "tcp"
@@ -126,6 +126,17 @@ func vc06Round(tcp bool, addr net.Addr, wires [][]byte, sentinelID, sentinel2ID 
 	}
 
 	if tcp {
+		// split > 0: deliver the stream in two segments, cut split octets into
+		// the first frame's body, so that the server sees a partial frame first.
+		if cut := 2 + split; split > 0 && cut < len(out) {
+			if _, err = c.Write(out[:cut]); err != nil {
+				return nil, false, err
+			}
+
+			time.Sleep(3 * time.Millisecond)
+			out = out[cut:]
+		}
+
 		if _, err = c.Write(out); err != nil {
 			return nil, false, err
 		}
@@ -219,7 +230,7 @@ func vc06Round(tcp bool, addr net.Addr, wires [][]byte, sentinelID, sentinel2ID 
 func TestVerifC06Sockets(t *testing.T) {
 	st := vstat.New("C06", "dnsserver.udp-tcp-sockets",
 		"rapid (transport UDP/TCP, history of 1-3 valid marker queries, next query valid / truncated / inflated counts / pointer beyond the end / trailing bytes / header only) against one long-lived real ServerDNS on loopback whose handler echoes the decoded request; oracle = decode of the query's own bytes + the documented accept rules; non-trivial = query inconsistent; distinct by (transport, query bytes)",
-		"udp", "tcp", "expect-none", "expect-echo", "kind-pointer", "kind-counts", "kind-truncated", "kind-header-only")
+		"udp", "tcp", "tcp-split-frame", "expect-none", "expect-echo", "kind-pointer", "kind-counts", "kind-truncated", "kind-header-only")
 	st.Finish(t)
 
 	// The server binds UDP to a free port and then TCP to the same number, which
@@ -281,22 +292,34 @@ func TestVerifC06Sockets(t *testing.T) {
 			sentinel2++
 		}
 
+		// Over TCP a frame may arrive in several segments: half of the cases
+		// cut the frame of the query under test at a drawn offset (biased to
+		// the header boundary).
+		split := 0
+		if tcp && len(next.Wire) > 1 && rapid.Bool().Draw(t, "splitFrame") {
+			split = rapid.OneOf(rapid.SampledFrom([]int{1, 11, 12, 13}), rapid.IntRange(1, len(next.Wire)-1)).Draw(t, "splitAt")
+			split = min(split, len(next.Wire)-1)
+		}
+
 		var resps map[uint16]*dns.Msg
 		var err error
 		settled := false
 		if tcp {
 			// History on its own connection first (a bad query may close the
 			// connection), then the query under test.
-			if _, _, err = vc06Round(true, tcpAddr, wires, sentinel, sentinel2, nil); err == nil {
-				resps, settled, err = vc06Round(true, tcpAddr, [][]byte{next.Wire}, sentinel, sentinel2, expectAll)
+			if _, _, err = vc06Round(true, tcpAddr, wires, sentinel, sentinel2, nil, 0); err == nil {
+				resps, settled, err = vc06Round(true, tcpAddr, [][]byte{next.Wire}, sentinel, sentinel2, expectAll, split)
 			}
 		} else {
-			resps, settled, err = vc06Round(false, udpAddr, append(wires, next.Wire), sentinel, sentinel2, expectAll)
+			resps, settled, err = vc06Round(false, udpAddr, append(wires, next.Wire), sentinel, sentinel2, expectAll, 0)
 		}
 
 		classes := []string{"kind-" + next.Kind}
 		if tcp {
 			classes = append(classes, "tcp")
+			if split > 0 {
+				classes = append(classes, "tcp-split-frame")
+			}
 		} else {
 			classes = append(classes, "udp")
 		}
